@@ -145,6 +145,34 @@ def first_diff(expected, got):
     return None
 
 
+def valid_program(ops):
+    """static well-formedness: objects exist before they are used, contexts are matched"""
+    n_obj = 0
+    cnt = {}
+    cls = 0
+    for op in ops:
+        k = op[0]
+        if k == "open":
+            n_obj += 1
+        elif k in ("enter", "exit"):
+            if not (0 <= op[1] < n_obj):
+                return False
+            cnt[op[1]] = cnt.get(op[1], 0) + (1 if k == "enter" else -1)
+            if cnt[op[1]] < 0:
+                return False
+        elif k == "center":
+            cls += 1
+        elif k == "cexit":
+            cls -= 1
+            if cls < 0:
+                return False
+        elif k == "call":
+            h = op[1]
+            if h[0] == "o" and not (0 <= int(h[1:]) < n_obj):
+                return False
+    return n_obj > 0
+
+
 def shrink(ops, still_fails):
     """Greedy minimisation of an op list (drop one op at a time, keep `open`s that
     later ops need); `still_fails(ops)` must be deterministic."""
@@ -154,6 +182,8 @@ def shrink(ops, still_fails):
         changed = False
         for i in range(len(cur) - 1, -1, -1):
             cand = cur[:i] + cur[i + 1:]
+            if not valid_program(cand):
+                continue
             try:
                 if still_fails(cand):
                     cur = cand
